@@ -670,6 +670,7 @@ func (t *State) Walk(blockid []byte, ledgerPrune bool) error {
 	if err != nil {
 		t.log.Warn("walk fail,find common parent block fail", "dest_block", hex.EncodeToString(blockid),
 			"latest_block", hex.EncodeToString(t.latestBlockid), "err", err)
+		t.recoverAfterFailedWalk(undoList)
 		return fmt.Errorf("walk find common parent block fail")
 	}
 	xTimer.Mark("walk_find_undo_todo_block")
@@ -679,6 +680,7 @@ func (t *State) Walk(blockid []byte, ledgerPrune bool) error {
 	if err != nil {
 		t.resetMemAfterFailedBlock()
 		t.log.Warn("walk fail,because undo block fail", "err", err)
+		t.recoverAfterFailedWalk(undoList)
 		return fmt.Errorf("walk undo block fail")
 	}
 	xTimer.Mark("walk_undo_block")
@@ -688,6 +690,7 @@ func (t *State) Walk(blockid []byte, ledgerPrune bool) error {
 	if err != nil {
 		t.resetMemAfterFailedBlock()
 		t.log.Warn("walk fail,because todo block fail", "err", err)
+		t.recoverAfterFailedWalk(undoList)
 		return fmt.Errorf("walk todo block fail")
 	}
 	xTimer.Mark("walk_todo_block")
@@ -698,6 +701,14 @@ func (t *State) Walk(blockid []byte, ledgerPrune bool) error {
 	t.log.Info("utxo walk finish", "dest_block", hex.EncodeToString(blockid),
 		"latest_blockid", hex.EncodeToString(t.latestBlockid), "costs", xTimer.Print())
 	return nil
+}
+
+// recoverAfterFailedWalk gives the pending transactions back after a walk that failed: they
+// were all rolled back (durably) when the walk started, and only a successful walk used to
+// re-admit them, so one block that does not verify emptied the node's pool.
+func (t *State) recoverAfterFailedWalk(undoList []*pb.Transaction) {
+	t.log.Info("walk failed, recover unconfirm tx", "tx_count", len(undoList))
+	go t.recoverUnconfirmedTx(undoList)
 }
 
 // 查询交易
